@@ -26,6 +26,7 @@ fn family(prop: &str) -> &'static str {
         "C21" => "cancel",
         "C24" => "create",
         "C22" => "faultwait",
+        "C23" => "mixed",
         _ => "acyclic",
     }
 }
@@ -476,7 +477,7 @@ pub fn check_iter(prop: &str, case: &ConcCase, res: &IterResult) -> IterVerdict 
         }
     }
     // value clauses belong to C16 / C18 / C14 / C20 / C21 / C11 / C24; the other checks only count them
-    if matches!(prop, "C17" | "C19" | "C08") {
+    if matches!(prop, "C17" | "C19" | "C08" | "C23") {
         let keep: Vec<String> = v
             .iter()
             .filter(|m| !m.contains("reference says"))
